@@ -106,3 +106,10 @@ impl<K: Ord + Copy, V: KeyValue<K>> SetCollection<K, V> for SetList<V> {
         self.buffer.clear();
     }
 }
+#[cfg(itree_verif)]
+impl<V: Clone> SetList<V> {
+    /// Read-only copy of the buffer (verification hook).
+    pub fn verif_snapshot(&self) -> Vec<V> {
+        self.buffer.clone()
+    }
+}
